@@ -46,6 +46,15 @@ def special_inputs():
                         ", ".join(f"V{j} {{ source: X{j} }}" for j in range(n)) + " }"))
     out.append(("Error", "enum E<A, B, C, D> { V0 { source: A }, V1(#[error(source)] B, u8), V2(C), V3 { #[error(source)] x: D, y: A } }"))
     out.append(("Error", "struct S<A, B>(#[error(source)] Vec<A>, B);"))
+    # types that share their leading tokens (a printed form that includes spans tells them apart by the span first)
+    for n in (2, 3, 5):
+        out.append(("Error", f"enum W{n}<" + ", ".join(f"X{j}" for j in range(n)) + "> { " +
+                    ", ".join(f"V{j} {{ source: Box<X{j}> }}" for j in range(n)) + " }"))
+        out.append(("Display", '#[display("' + " ".join(f"{{_{j}}}" for j in range(n)) + f'")] struct D{n}<' +
+                    ", ".join(f"X{j}" for j in range(n)) + ">(" + ", ".join(f"Box<X{j}>" for j in range(n)) + ");"))
+        out.append(("Debug", f"struct B{n}<" + ", ".join(f"X{j}" for j in range(n)) + ">(" + ", ".join(f"Box<X{j}>" for j in range(n)) + ");"))
+    out.append(("From", "enum Fw<A, B> { P(Box<A>), Q(Box<B>), R(Box<A>, Box<B>) }"))
+    out.append(("TryInto", "enum Tw { P(Box<i8>), Q(Box<u8>), R(Box<i8>, Box<u8>) }"))
     out.append(("TryInto", "enum E<T, U> { A(T), B(U), C(T, U), D(U, T), E0(u8), F(u16) }"))
     out.append(("From", "enum E { A(i8), B(i16), C(i32, i64), D { x: u8, y: u16 }, #[from(skip)] S(i8) }"))
     out.append(("Display", '#[display("{_variant}")] enum E<T, U> { A(T), #[display("{_0} {_1}")] B(U, T), C }'))
@@ -79,6 +88,126 @@ def twins(item):
         if (w in PRIMS or w[0].isupper()) and w not in words and w not in ("Self", m.group(3)):
             words.append(w)
     return [item[:pos] + "<" + ", ".join(words[:6]) + ">" + item[pos:]] if words else []
+
+
+def rustc_level(chk, tier):
+    """The real proc-macro in separate compiler processes, on the SAME items at DIFFERENT source positions: whitespace
+    inserted before and between the items shifts every span's byte offsets (and line/column) and vanishes from the
+    pretty-printed expansion, which must therefore stay the same, item by item. Besides two uniform shifts, every item is
+    laid out so that a point inside it sits exactly on a power of ten (10^2 .. 10^6): the spans of the tokens before
+    and after that point then differ in their NUMBER OF DIGITS, which is where an order or a name derived from a span's
+    printed form changes."""
+    import shlex
+    import concurrent.futures as cf
+    items = [(d, it) for d, it in special_inputs()]
+    if tier == "quick":
+        items = [x for k, x in enumerate(items) if k % 3 == 0 or x[0] == "Error"][:64]
+    texts = [f"mod m{i} {{ #[derive(derive_more::{d})] {it} }}" for i, (d, it) in enumerate(items)]
+    head = "#![allow(dead_code)]"
+
+    def uniform(pad):
+        out = [head]
+        for i, t in enumerate(texts):
+            if pad:
+                out.append(" " * (pad * (i % 7 + 1) * 13 + (997 if i == 0 else 0)))
+            out.append(t)
+        return "\n".join(out) + "\nfn main() {}\n"
+    dpath = vlib.write_probe("c19_rustc", uniform(0))
+    env = vlib.cargo_env({"CARGO_TARGET_DIR": os.path.join(vlib.BUILD, "target-probe-nightly")})
+    cmdline = None
+    for attempt in range(2):
+        p = subprocess.run(["cargo", "+nightly", "rustc", "--offline", "-v", "--", "-Zunpretty=expanded"], cwd=dpath, env=env,
+                           stdout=subprocess.PIPE, stderr=subprocess.PIPE, timeout=1800)
+        if p.returncode != 0 or not p.stdout:
+            raise vlib.ToolError(f"cargo rustc -Zunpretty=expanded failed: {p.stderr.decode()[-800:]}")
+        for line in p.stderr.decode().splitlines():
+            if line.strip().startswith("Running `") and "--crate-name c19_rustc" in line:
+                cmdline = shlex.split(line.strip()[len("Running `"):-1])
+        if cmdline:
+            break
+        os.utime(os.path.join(dpath, "src", "main.rs"))
+    if not cmdline:
+        raise vlib.ToolError("could not learn rustc's command line from cargo -v")
+    keep = [cmdline[0], "--crate-name", "c19_rustc", "--edition=2021", "--crate-type", "bin", "-Zunpretty=expanded"]
+    for j, a in enumerate(cmdline):
+        if a == "-L" or a == "--extern":
+            keep += [a, cmdline[j + 1]]
+
+    def split(out):
+        """per-module chunks of the pretty-printed expansion, blank lines and indentation dropped"""
+        chunks, cur = {}, None
+        for l in out.decode("utf-8", "replace").splitlines():
+            m = re.match(r"^mod m(\d+) \{", l)
+            if m:
+                cur = int(m.group(1))
+                chunks[cur] = []
+            if l.startswith("fn main"):
+                cur = None
+            if cur is not None and l.strip():
+                chunks[cur].append(l.strip())
+        return chunks
+    base = split(p.stdout)
+    if len(base) != len(texts):
+        raise vlib.ToolError(f"-Zunpretty=expanded: {len(base)} modules for {len(texts)} items")
+    # layouts: (name, source text)
+    layouts = [("shift:1", uniform(1)), ("shift:77", uniform(77))]
+    bounds = [10 ** k for k in range(2, 7)]
+    fracs = (0.5,) if tier == "quick" else (0.25, 0.5, 0.75)
+    per_run = len(bounds)
+    for f in fracs:
+        for g0 in range(0, len(texts), per_run - 1):
+            group = list(range(g0, min(g0 + per_run - 1, len(texts))))
+            src, cur, gi = head + "\n", len(head) + 1, 0
+            placed = []
+            for B in bounds:
+                if gi >= len(group):
+                    break
+                t = texts[group[gi]]
+                off = t.index("] ") + 2
+                piv = off + int((len(t) - off) * f)
+                # move the pivot to a token boundary
+                while piv < len(t) and t[piv] not in " ,:<>(){}":
+                    piv += 1
+                need = B - (cur + piv)
+                if need < 0:
+                    continue
+                src += " " * need + t + "\n"
+                cur += need + len(t) + 1
+                placed.append((group[gi], B))
+                gi += 1
+            if placed:
+                layouts.append((f"straddle:{f}:" + ",".join(f"m{i}@{B}" for i, B in placed), src + "fn main() {}\n"))
+    ldir = os.path.join(vlib.WORK, "c19", "layouts")
+    os.makedirs(ldir, exist_ok=True)
+
+    def run_one(k):
+        name, src = layouts[k]
+        fp = os.path.join(ldir, f"l{k}.rs")
+        with open(fp, "w") as fh:
+            fh.write(src)
+        q = subprocess.run(keep + [fp], cwd=dpath, env=env, stdout=subprocess.PIPE, stderr=subprocess.PIPE, timeout=600)
+        os.remove(fp)
+        if q.returncode != 0 or not q.stdout:
+            raise vlib.ToolError(f"rustc -Zunpretty=expanded failed on layout {name}: {q.stderr.decode()[-800:]}")
+        return split(q.stdout)
+    with cf.ThreadPoolExecutor(max_workers=8) as ex:
+        results = list(ex.map(run_one, range(len(layouts))))
+    n_cmp, reported = 0, set()
+    for (name, _), chunks in zip(layouts, results):
+        for i, lines in chunks.items():
+            n_cmp += 1
+            if lines != base[i] and i not in reported:
+                reported.add(i)
+                a, b = base[i], lines
+                first = next((n for n, (x, y) in enumerate(zip(a, b)) if x != y), min(len(a), len(b)))
+                d, it = items[i]
+                chk.deviation(f"rustc:shifted:{d}:{it[:100]}", "the same item expands differently when its position in the source file changes "
+                              f"(layout {name}; first differing line: {a[first][:160] if first < len(a) else ''!r} vs {b[first][:160] if first < len(b) else ''!r})",
+                              case={"derive": d, "item": it, "layout": name}, expected="the same -Zunpretty=expanded text",
+                              observed="differs", tags={"kind": "nondeterministic", "derive": d})
+    chk.cov["evaluations"] += n_cmp
+    chk.cov["traces_validated_against_impl"] += n_cmp
+    chk.notes["rustc_level"] = {"items": len(texts), "layouts": len(layouts), "item_expansions_compared": n_cmp}
 
 
 def run(chk, tier, seed, replay):
@@ -160,39 +289,7 @@ def run(chk, tier, seed, replay):
     # (whitespace of different lengths is inserted before and between the items: it shifts every span's byte offsets and
     # vanishes from the pretty-printed expansion, which must therefore stay byte-identical)
     if not replay:
-        items = [(d, it) for d, it in special_inputs()]
-        if tier == "quick":
-            items = [x for k, x in enumerate(items) if k % 3 == 0 or x[0] == "Error"][:60]
-
-        def source(pad):
-            out = ["#![allow(dead_code)]"]
-            for i, (d, it) in enumerate(items):
-                if pad:
-                    out.append(" " * (pad * (i % 7 + 1) * 13 + (997 if i == 0 else 0)))      # whitespace shifts offsets, leaves no trace
-                out.append(f"mod m{i} {{ #[derive(derive_more::{d})] {it} }}")
-            return "\n".join(out) + "\nfn main() {}\n"
-        outs = []
-        for k, pad in enumerate((0, 1, 77)):
-            dpath = vlib.write_probe("c19_rustc", source(pad))
-            env = vlib.cargo_env({"CARGO_TARGET_DIR": os.path.join(vlib.BUILD, "target-probe-nightly")})
-            p = subprocess.run(["cargo", "+nightly", "rustc", "--offline", "-q", "--", "-Zunpretty=expanded"], cwd=dpath, env=env,
-                               stdout=subprocess.PIPE, stderr=subprocess.PIPE, timeout=1800)
-            if p.returncode != 0 or not p.stdout:
-                raise vlib.ToolError(f"cargo rustc -Zunpretty=expanded failed: {p.stderr.decode()[-800:]}")
-            # (the pretty printer keeps some of the source's blank lines: compare the non-blank lines)
-            outs.append(b"\n".join(l.strip() for l in p.stdout.splitlines() if l.strip()))
-        chk.cov["evaluations"] += len(items) * len(outs)
-        chk.cov["traces_validated_against_impl"] += len(items) * len(outs)
-        chk.notes["rustc_unpretty_bytes"] = len(outs[0])
-        for k in range(1, len(outs)):
-            if outs[k] != outs[0]:
-                a, b = outs[0].decode("utf-8", "replace").splitlines(), outs[k].decode("utf-8", "replace").splitlines()
-                first = next((n for n, (x, y) in enumerate(zip(a, b)) if x != y), min(len(a), len(b)))
-                chk.deviation("rustc:unpretty:shifted", "the same items expand differently when their position in the source file changes "
-                              f"(first differing line {first + 1}: {a[first][:160] if first < len(a) else ''!r} vs {b[first][:160] if first < len(b) else ''!r})",
-                              case={"crate": "c19_rustc", "padding": [0, 1, 77][k]}, expected="byte-identical -Zunpretty=expanded output",
-                              observed="differs", tags={"kind": "nondeterministic"})
-                break
+        rustc_level(chk, tier)
     chk.cov["rule"] = ("inputs: hashed-collection stress inputs + one per code path of every derive + a twin of each with the roles of "
                        "its names exchanged (generic <-> concrete); K fresh processes x orders x "
                        "repeats; non-trivial = inputs iterating hashed collections")
